@@ -31,6 +31,20 @@ func str(s string) *sg.TypeSpec { return &sg.TypeSpec{Name: s} }
 func inject(mods []*sg.Mod, d string, pick func(n int) int) {
 	m := mods[pick(len(mods))]
 	last := mods[len(mods)-1]
+	// a link of a cycle inside one module may be written with the module's own prefix
+	ownPfx := pick(3) == 1
+	str := func(s string) *sg.TypeSpec {
+		if ownPfx && strings.HasPrefix(s, "cyc-") {
+			return &sg.TypeSpec{Name: m.Prefix + ":" + s}
+		}
+		return &sg.TypeSpec{Name: s}
+	}
+	ref := func(s string) string {
+		if ownPfx {
+			return m.Prefix + ":" + s
+		}
+		return s
+	}
 	switch d {
 	case "import-cycle":
 		if len(mods) >= 2 {
@@ -58,33 +72,33 @@ func inject(mods []*sg.Mod, d string, pick func(n int) int) {
 			&sg.Typedef{Name: "cyc-b", Type: str("cyc-a")})
 		m.Nodes[0].Kids = append(m.Nodes[0].Kids, &sg.Node{Kind: "leaf", Name: "cyc-leaf", Type: str("cyc-b")})
 	case "grouping-cycle-direct":
-		m.Groupings = append(m.Groupings, &sg.Grouping{Name: "cyc-ga", Kids: []*sg.Node{{Kind: "uses", Name: "cyc-gb"}}},
-			&sg.Grouping{Name: "cyc-gb", Kids: []*sg.Node{{Kind: "uses", Name: "cyc-ga"}}})
-		m.Nodes[0].Kids = append(m.Nodes[0].Kids, &sg.Node{Kind: "uses", Name: "cyc-ga"})
+		m.Groupings = append(m.Groupings, &sg.Grouping{Name: "cyc-ga", Kids: []*sg.Node{{Kind: "uses", Name: ref("cyc-gb")}}},
+			&sg.Grouping{Name: "cyc-gb", Kids: []*sg.Node{{Kind: "uses", Name: ref("cyc-ga")}}})
+		m.Nodes[0].Kids = append(m.Nodes[0].Kids, &sg.Node{Kind: "uses", Name: ref("cyc-ga")})
 	case "grouping-cycle-nested":
-		m.Groupings = append(m.Groupings, &sg.Grouping{Name: "cyc-ga", Kids: []*sg.Node{{Kind: "container", Name: "cyc-c", Kids: []*sg.Node{{Kind: "uses", Name: "cyc-ga"}}}}})
-		m.Nodes[0].Kids = append(m.Nodes[0].Kids, &sg.Node{Kind: "uses", Name: "cyc-ga"})
+		m.Groupings = append(m.Groupings, &sg.Grouping{Name: "cyc-ga", Kids: []*sg.Node{{Kind: "container", Name: "cyc-c", Kids: []*sg.Node{{Kind: "uses", Name: ref("cyc-ga")}}}}})
+		m.Nodes[0].Kids = append(m.Nodes[0].Kids, &sg.Node{Kind: "uses", Name: ref("cyc-ga")})
 	case "grouping-cycle-unused":
-		m.Groupings = append(m.Groupings, &sg.Grouping{Name: "cyc-ga", Kids: []*sg.Node{{Kind: "list", Name: "cyc-l", Key: "k", Kids: []*sg.Node{{Kind: "leaf", Name: "k", Type: str("string")}, {Kind: "uses", Name: "cyc-ga"}}}}})
+		m.Groupings = append(m.Groupings, &sg.Grouping{Name: "cyc-ga", Kids: []*sg.Node{{Kind: "list", Name: "cyc-l", Key: "k", Kids: []*sg.Node{{Kind: "leaf", Name: "k", Type: str("string")}, {Kind: "uses", Name: ref("cyc-ga")}}}}})
 	case "grouping-cycle-via-choice":
-		m.Groupings = append(m.Groupings, &sg.Grouping{Name: "cyc-ga", Kids: []*sg.Node{{Kind: "choice", Name: "cyc-ch", Kids: []*sg.Node{{Kind: "case", Name: "cyc-cs", Kids: []*sg.Node{{Kind: "uses", Name: "cyc-gb"}}}}}}},
-			&sg.Grouping{Name: "cyc-gb", Kids: []*sg.Node{{Kind: "container", Name: "cyc-c2", Kids: []*sg.Node{{Kind: "uses", Name: "cyc-ga"}}}}})
-		m.Nodes[0].Kids = append(m.Nodes[0].Kids, &sg.Node{Kind: "uses", Name: "cyc-gb"})
+		m.Groupings = append(m.Groupings, &sg.Grouping{Name: "cyc-ga", Kids: []*sg.Node{{Kind: "choice", Name: "cyc-ch", Kids: []*sg.Node{{Kind: "case", Name: "cyc-cs", Kids: []*sg.Node{{Kind: "uses", Name: ref("cyc-gb")}}}}}}},
+			&sg.Grouping{Name: "cyc-gb", Kids: []*sg.Node{{Kind: "container", Name: "cyc-c2", Kids: []*sg.Node{{Kind: "uses", Name: ref("cyc-ga")}}}}})
+		m.Nodes[0].Kids = append(m.Nodes[0].Kids, &sg.Node{Kind: "uses", Name: ref("cyc-gb")})
 	case "grouping-cycle-long":
 		names := []string{"cyc-g1", "cyc-g2", "cyc-g3", "cyc-g4"}
 		for i, n := range names {
 			m.Groupings = append(m.Groupings, &sg.Grouping{Name: n, Kids: []*sg.Node{{Kind: "leaf", Name: "cyc-l" + fmt.Sprint(i), Type: str("string")},
-				{Kind: "container", Name: "cyc-c" + fmt.Sprint(i), Kids: []*sg.Node{{Kind: "uses", Name: names[(i+1)%len(names)]}}}}})
+				{Kind: "container", Name: "cyc-c" + fmt.Sprint(i), Kids: []*sg.Node{{Kind: "uses", Name: ref(names[(i+1)%len(names)])}}}}})
 		}
-		m.Nodes[0].Kids = append(m.Nodes[0].Kids, &sg.Node{Kind: "uses", Name: "cyc-g3"})
+		m.Nodes[0].Kids = append(m.Nodes[0].Kids, &sg.Node{Kind: "uses", Name: ref("cyc-g3")})
 	case "identity-cycle":
-		m.Identities = append(m.Identities, &sg.Identity{Name: "cyc-ia", Base: "cyc-ib"}, &sg.Identity{Name: "cyc-ib", Base: "cyc-ia"})
+		m.Identities = append(m.Identities, &sg.Identity{Name: "cyc-ia", Base: ref("cyc-ib")}, &sg.Identity{Name: "cyc-ib", Base: ref("cyc-ia")})
 	case "identity-self":
-		m.Identities = append(m.Identities, &sg.Identity{Name: "cyc-ia", Base: "cyc-ia"})
+		m.Identities = append(m.Identities, &sg.Identity{Name: "cyc-ia", Base: ref("cyc-ia")})
 	case "feature-cycle":
-		m.Features = append(m.Features, &sg.Feature{Name: "cyc-fa", IfFeatures: []string{"cyc-fb"}}, &sg.Feature{Name: "cyc-fb", IfFeatures: []string{"cyc-fa"}})
+		m.Features = append(m.Features, &sg.Feature{Name: "cyc-fa", IfFeatures: []string{ref("cyc-fb")}}, &sg.Feature{Name: "cyc-fb", IfFeatures: []string{ref("cyc-fa")}})
 	case "feature-self":
-		m.Features = append(m.Features, &sg.Feature{Name: "cyc-fa", IfFeatures: []string{"cyc-fa"}})
+		m.Features = append(m.Features, &sg.Feature{Name: "cyc-fa", IfFeatures: []string{ref("cyc-fa")}})
 	case "dangling-import":
 		m.Imports = append(m.Imports, sg.Import{Mod: "no-such-module", Prefix: "nsm"})
 	case "dangling-include":
